@@ -12,6 +12,7 @@ mod components;
 mod json;
 mod kernels;
 mod lean;
+mod once;
 mod repr;
 mod world;
 
@@ -71,7 +72,13 @@ fn cmd_kernel(args: &Args, which: &str) -> J {
         let ops = 3 + rng.below(6);
         let (strategy, sname) = strategy_for(&mut rng, case);
         let case_seed = rng.next();
-        let (report, final_line, script_desc) = if which == "ctx" {
+        let (report, final_line, script_desc) = if which == "wait" {
+            let producers = threads - 1 + rng.below(2);
+            let scripts = kernels::gen_wait_scripts(&mut rng, producers, ops / 2);
+            let delay = rng.below(6);
+            let (report, done) = kernels::run_wait(&scripts, delay, strategy, case_seed);
+            (report, format!("final {} -", done as u8), format!("waiter-delay {delay} producers {scripts:?}"))
+        } else if which == "ctx" {
             let scripts = kernels::gen_ctx_scripts(&mut rng, n, threads, ops);
             let (report, fin) = kernels::run_ctx(n, &scripts, strategy, case_seed);
             let mut f = format!("final {} {}", fin.validation_idx, fin.frontier);
@@ -101,7 +108,11 @@ fn cmd_kernel(args: &Args, which: &str) -> J {
         if let Some(stall) = &report.stall {
             stalls.push(format!("case {case}: {stall}"));
         }
-        session.push_str(&format!("kernel {which} {n}\n"));
+        if which == "wait" {
+            session.push_str("kernel wait\n");
+        } else {
+            session.push_str(&format!("kernel {which} {n}\n"));
+        }
         let lines = kernels::trace_lines(&report);
         if sample.len() < 2 {
             sample.push(J::obj(vec![
@@ -176,6 +187,7 @@ fn main() {
     let args = Args::parse();
     let out = match args.sub.as_str() {
         "kernel-ctx" => cmd_kernel(&args, "ctx"),
+        "kernel-wait" => cmd_kernel(&args, "wait"),
         "kernel-dep" => cmd_kernel(&args, "dep"),
         "e2e" => e2e::cmd_e2e(&args),
         "faults" => e2e::cmd_faults(&args),
@@ -184,6 +196,7 @@ fn main() {
         "history" => components::cmd_history(&args),
         "reward" => components::cmd_reward(&args),
         "repr" => repr::cmd_repr(&args),
+        "once" => once::cmd_once(&args),
         other => J::obj(vec![("error", J::Str(format!("unknown subcommand {other}")))]),
     };
     println!("{}", out.render());
